@@ -9,6 +9,7 @@ import (
 	"bytes"
 	"context"
 	"encoding/json"
+	"errors"
 	"fmt"
 	"io"
 	"net/http"
@@ -28,6 +29,9 @@ import (
 )
 
 func init() { families["conc"] = famConc }
+
+var errRefused = errors.New("third party refuses")
+var dischargeCalls int64
 
 const concLoc = "https://perm.example"
 const concTP = "https://tp.example"
@@ -93,7 +97,15 @@ var concOps = []concOp{
 		b.Verify(context.Background(), bundle.WithKey([]byte("kid"), e.key, nil))
 	}},
 	{"Bundle.Discharge", true, func(e *concEnv, b *bundle.Bundle) {
-		b.Discharge(concTP, e.ka, func(cs []macaroon.Caveat) ([]macaroon.Caveat, error) { return nil, nil })
+		// every other call is REFUSED by the third party (the error path of Discharge: nothing is added, the call returns
+		// an error - and returns: an error path that asks the bundle about itself through a locking accessor never does)
+		refuse := atomic.AddInt64(&dischargeCalls, 1)%2 == 0
+		b.Discharge(concTP, e.ka, func(cs []macaroon.Caveat) ([]macaroon.Caveat, error) {
+			if refuse {
+				return nil, errRefused
+			}
+			return nil, nil
+		})
 	}},
 	{"Bundle.Any", false, func(e *concEnv, b *bundle.Bundle) {
 		b.Any(bundle.IsWellFormedMacaroon)
